@@ -164,6 +164,11 @@ class Report:
         if len(self.inconclusive) > max(2, nob // 100) or self.q["unknown"] * 20 > max(20, sum(self.q.values())):
             print("HARNESS: too many inconclusive obligations: %s" % self.inconclusive[:5])
             return 2
+        if len(self.unconfirmed) > max(5, nob // 50):
+            # many symbolic candidates that do not reproduce: the encoding does not follow this code (e.g. a library call the
+            # stubs do not model) - the check cannot vouch for it
+            print("HARNESS: %d symbolic candidates did not reproduce - the encoding does not follow this code; no verdict" % len(self.unconfirmed))
+            return 2
         if cov["distinct_nontrivial"] < 2 or cov["evaluations"] < 1:
             print("HARNESS: coverage too small")
             return 2
